@@ -113,9 +113,18 @@ class Scratch:
                          "dev-dependencies and examples dropped" % ",".join(sorted(replaced)))
 
     def standalone_workspace(self):
-        txt = self.read("Cargo.toml")
-        if "[workspace]" not in txt:
-            self.write("Cargo.toml", txt + "\n[workspace]\n")
+        """Keep the real dependencies; drop the [[example]] sections (examples/ is not copied)."""
+        lines, out, skip = self.read("Cargo.toml").splitlines(), [], False
+        for ln in lines:
+            m = re.match(r"^\s*\[+([^\]]+)\]+\s*$", ln)
+            if m:
+                skip = m.group(1).strip() in ("example", "workspace")
+                if skip:
+                    continue
+            if not skip:
+                out.append(ln)
+        out += ["", "[workspace]", ""]
+        self.write("Cargo.toml", "\n".join(out) + "\n")
 
     def rewrite(self, rel, pattern, repl, what):
         txt = self.read(rel)
